@@ -34,3 +34,17 @@ Proof.
   exact (client_coroutine_req_rel _ _ _ _ _ (bru_consumer_ok_rel sep limit keep_end dec sizehint Hs Hl) _
            (bru_R_init sep limit keep_end dec Hs) oc acts0 o HG).
 Qed.
+
+From EN Require Import Proofs.C03_buffixed.
+
+Lemma bfx_requests_in_order :
+  forall (P : Type) (size : nat) (dec : decoder P) (sizehint : nat), 1 <= size ->
+  forall (oc : nat) (acts0 : list hact) (o : speer),
+    let f := client_coroutine (buf_machine (bfx_framer size dec) sizehint) oc acts0 (bcinit (bfx_framer size dec)) o in
+    (exists n, got_log (ulog (f_user f)) = firstn n (fst (fx_events size dec (sstream_of o))))
+    /\ (f_eof f = true -> got_log (ulog (f_user f)) = fst (fx_events size dec (sstream_of o))).
+Proof.
+  intros P size dec sizehint Hs oc acts0 o.
+  exact (client_coroutine_req_rel _ _ _ _ _ (bfx_consumer_ok_rel size dec sizehint Hs) _
+           (bfx_R_init size dec sizehint Hs) oc acts0 o I).
+Qed.
